@@ -31,6 +31,17 @@ def queries(tier):
             q('sort[less=procedure,%s,n=%d]' % (nm, n), dict(d, MODE=2), unwind=n + 3)
             if n >= 2 and (tier != 'quick' or n <= 4) and not lst:
                 q('sort[less raises,%s,n=%d]' % (nm, n), dict(d, MODE=3), unwind=n + 3)
+    # fixnum elements on the object-cmp path: per-query constants from the lattice MIN_FIXNUM,-1,0,1,MAX_FIXNUM (R10)
+    import itertools
+    names = ['min', '-1', '0', '1', 'max']
+    for mid in (1, 2, 3):
+        for e in itertools.permutations((0, mid, 4)):
+            lab = ','.join(names[i] for i in e)
+            d = {'E0': e[0], 'E1': e[1], 'E2': e[2]}
+            q('sort[object-cmp,fixnum lattice (%s),vector,n=3]' % lab, dict(d, N=3, MODE=5), unwind=6)
+            if mid == 2:
+                q('sort[object-cmp,fixnum lattice (%s),list,n=3]' % lab, dict(d, N=3, MODE=5, LIST=1), unwind=6)
+                q('object-cmp laws[fixnum lattice (%s)]' % lab, dict(d, MODE=4, KIND=4, N=1), unwind=5)
     for kind, nm in ((1, 'flonum'), (2, 'bignum'), (3, 'string')):
         q('object-cmp laws[%s]' % nm, {'MODE': 4, 'KIND': kind, 'N': 1}, unwind=5, unwindset={'strcmp.0': 5})
     return qs
@@ -38,7 +49,7 @@ def queries(tier):
 
 def bounds(tier):
     return {'n': '0..%d elements, vector and list inputs' % (5 if tier == 'quick' else 7),
-            'elements': 'object-cmp path: distinct flonum objects with free non-NaN values; comparator path: fixnums key*8+index with a free 2-bit key '
+            'elements': 'object-cmp path: distinct flonum objects with free non-NaN values, and (n=3) fixnums from the lattice MIN_FIXNUM,-1,0,1,MAX_FIXNUM as per-query constants (not free values); comparator path: fixnums key*8+index with a free 2-bit key '
                         '(every strict weak order on n<=4 classes, heavy duplication), comparator = environment function ordering by key',
             'comparator_exception': 'raised at a free call number 1..n^2'}
 
